@@ -4,6 +4,10 @@ import json, os
 ROOT = os.path.dirname(os.path.dirname(os.path.abspath(__file__)))
 TRUST = "TLC 1.8 and the CommunityModules Json/IOUtils; the Rust harness (vh) that drives the public API of /repo's crates; rustc/cargo"
 CHECKS = {
+ "C02": ("DESIGN.md section 6 C02",
+         "Binding (template semantics: verbatim, single pass, one argument per template, spread = words) model-checked against Expansion (transcription of expansion.rs + bind_command_arguments) for every value over 12 character classes; every emitted case bound by the real run_instruction and parse_text+run_script; random Unicode templates recorded from the real runner validated by TLC.",
+         "small-scope exhaustive on values, sampled on Unicode; templates inside the stated domain",
+         "TLA+ spec + TLC exhaustive; spec->impl replay; impl->spec trace validation"),
  "C01": ("DESIGN.md section 6 C01",
          "Bounded-exhaustive model checking of Syntax (documented line syntax as a renderer) against Parser (transcription of parser.rs): every rendering of every bounded instruction parses back; bound to the code by replaying every emitted rendering into parse_text and by TLC trace validation of random Unicode scripts recorded from parse_text.",
          "small-scope (16 character classes, <=3 arguments) exhaustive, sampled beyond; Syntax.tla is the reading of the documented syntax",
